@@ -204,6 +204,17 @@ func c16History(c *vc.Ctx, idx int) {
 			k := 1 + r.Intn(2)
 			for i := 0; i < k; i++ {
 				m := world.NewMember(c.Seed, fmt.Sprintf("cand-%d", idx), len(cands))
+				if r.Intn(4) == 0 {
+					// a candidate that registers the vote key of an existing member or candidate (nothing in the registration
+					// forbids it): two seats then share one key, and each seat still needs its own signature in a quorum
+					pool := append([]*world.Member{}, w.Members...)
+					for _, x := range cands {
+						pool = append(pool, x.m)
+					}
+					tw := pool[r.Intn(len(pool))]
+					m.BLS, m.BLSPub = tw.BLS, tw.BLSPub
+					c.Count("candidates_sharing_a_vote_key", 1)
+				}
 				cd := &candidate{m: m, hashOK: true}
 				kh := sha256.Sum256(m.BLSPub)
 				if r.Intn(6) == 0 { // registered with a hash that is not the hash of its key
@@ -409,7 +420,60 @@ func c16History(c *vc.Ctx, idx int) {
 						}
 					}})
 				}
+				// two seated voters (or the proposer and a voter) sharing one vote key: a vote that marks both seats but carries
+				// the shared key's signature only once has one genuine signer fewer than marks + 1
+				twinDone := false
+				{
+					seats := append([]*world.Member{g.Proposer}, g.Voters...)
+					a, bIdx := -1, -1
+					for i := 0; i < len(seats) && a < 0; i++ {
+						for j := i + 1; j < len(seats); j++ {
+							if seats[i] != nil && seats[j] != nil && string(seats[i].BLSPub) == string(seats[j].BLSPub) {
+								a, bIdx = i, j
+								break
+							}
+						}
+					}
+					need := world.Threshold(len(g.Voters)) // signers incl. the proposer
+					if a >= 0 && need >= 2 && need <= len(seats) {
+						// marks: both twins (seat 0 is the proposer and has no mark), then others up to need-1 marks
+						var marks []int
+						signers := []*world.Member{g.Proposer}
+						if a > 0 {
+							marks = append(marks, a-1)
+						}
+						marks = append(marks, bIdx-1)
+						// of the twins only the first one signs (the proposer always signs)
+						if a > 0 {
+							signers = append(signers, seats[a])
+						}
+						for i := 1; i < len(seats) && len(marks) < need-1; i++ {
+							if i != a && i != bIdx {
+								marks = append(marks, i-1)
+								signers = append(signers, seats[i])
+							}
+						}
+						if len(marks) == need-1 {
+							m3, _ := bm.payload("consolidation", g.Proposer.AddrStr, blk+9000)
+							v, err := world.MakeVote(m3, world.VoteCtx{ChainID: w.Cfg.ChainID, Proposer: g.Proposer.AddrStr, Seq: g.Seq + 1, Epoch: g.Epoch}, signers, world.Bitmap(marks, 8*((len(g.Voters))/64+1)))
+							if err == nil {
+								setVote(m3, v)
+								twinDone = true
+								items = append(items, item{"vote marking two seats that share a vote key, signed once with it", m3, func(code uint32, log string) {
+									c.Eval(1)
+									if code == 0 {
+										viol("a marked seat's key took no part in the verification: two seats sharing a vote key were counted on one signature", fmt.Sprintf("%d members, threshold %d, %d genuine signers", len(seats), need, len(signers)))
+									}
+									c.Count("shared_key_votes_one_signature_short_rejected", 1)
+								}})
+							}
+						}
+					}
+				}
 				for _, cd := range cands {
+					if twinDone {
+						break
+					}
 					if cd.state == "boarding" && statusOf(cd.m.Addr) == relayertypes.VOTER_STATUS_ON_BOARDING {
 						// the boarding voter stands in for the last needed member: marks beyond the list or a missing signer
 						m2, _ := bm.payload("consolidation", g.Proposer.AddrStr, blk+7000)
